@@ -3,10 +3,15 @@
 // and the header-only LogicEvaluator / LogicStack / InfixEvaluator with the
 // same op sequences as the Coq model (coq/C10/Run.v, props/C10/driver.ml).
 //
-// usage: csg seq   < sequences   (one sequence per line, ops separated by '|')
-//        csg tok   < token cases (<kind> <values bits|-> <tokens...>)
+// usage: csg seq [budget_s] < sequences   (one sequence per line, ops separated by '|')
+//        csg tok [budget_s] < token cases (<kind> <values bits|-> <tokens...>)
+//        csg width
+// budget_s: watchdog per sequence / case (default 8 s): prints "! hang" and exits with status 3.
 // Output format: see props/C10/driver.ml (identical, line for line).
+#include <csignal>
 #include <cstdio>
+#include <cstdlib>
+#include <unistd.h>
 #include <iostream>
 #include <sstream>
 #include <string>
@@ -308,6 +313,8 @@ void run_sequence(std::string const& line)
         }
         else
             throw std::logic_error("bad op " + k);
+        // so that the records of completed ops survive a watchdog exit
+        std::cout << std::flush;
     }
 }
 
@@ -329,9 +336,22 @@ logic_int parse_tok(std::string const& s)
 }
 }  // namespace
 
+// Watchdog: the real code may fail to terminate (e.g. on a tree whose invariants were broken by a
+// defect). On expiry print a marker for the current sequence / case and leave the process; the
+// runner restarts after that sequence and reports a "hang" with it as the replay.
+extern "C" void on_alarm(int)
+{
+    static char const msg[] = "\n! hang\n";
+    ssize_t r = write(1, msg, sizeof(msg) - 1);
+    (void)r;
+    _exit(3);
+}
+
 int main(int argc, char** argv)
 {
     std::string mode = argc > 1 ? argv[1] : "seq";
+    unsigned budget = argc > 2 ? static_cast<unsigned>(std::atoi(argv[2])) : 8u;
+    std::signal(SIGALRM, on_alarm);
     if (mode == "width")
     {
         // width in bits of LogicStack's word (size_type)
@@ -343,6 +363,7 @@ int main(int argc, char** argv)
     {
         if (mode == "seq")
         {
+            alarm(budget);
             try
             {
                 run_sequence(line);
@@ -351,6 +372,7 @@ int main(int argc, char** argv)
             {
                 std::cout << "! throw\n";
             }
+            alarm(0);
             std::cout << ".\n" << std::flush;
         }
         else
@@ -358,6 +380,7 @@ int main(int argc, char** argv)
             Toks t = split(line, ' ');
             if (t.size() < 2)
                 continue;
+            alarm(budget);
             std::vector<logic_int> lgc;
             for (std::size_t j = 2; j < t.size(); ++j)
                 lgc.push_back(parse_tok(t[j]));
@@ -388,6 +411,7 @@ int main(int argc, char** argv)
                     std::cout << "invalid\n";
             }
             std::cout << std::flush;
+            alarm(0);
         }
     }
     return 0;
